@@ -140,6 +140,14 @@ class Sem:
         c = r.random()
         if c < 0.04:
             return "(" + self.bare_chain(E) + ")"
+        if c < 0.075:
+            # stacks of prefix / postfix operators whose characters would merge into a longer token if printed without
+            # a separator or parentheses ('- --x', 'x - -y', 'x++ + ++y', '- -x', '& *p' ...)
+            lv, lv2 = self.int_lvalue(E, 0), self.int_lvalue(E, 0)
+            return "(" + r.choice([f"- --{lv}", f"+ ++{lv}", f"- -{lv}", f"+ +{lv}", f"-~{lv}", f"!-{lv}", f"- - -{lv}", f"-(--{lv})", f"+(++{lv})",
+                                   f"{lv} - -{lv2}", f"{lv} + +{lv2}", f"{lv} - --{lv2}", f"{lv} + ++{lv2}", f"{lv}-- - --{lv2}",
+                                   f"{lv}++ + ++{lv2}", f"- {lv}--", f"+ {lv}++", f"!!{lv}", f"~-{lv}", f"-+-{lv}", f"{lv} & ~{lv2}",
+                                   f"{lv} & -{lv2}", f"sizeof -{lv}", f"- (int)sizeof {lv}", f"{lv} / -{lv2 } * 0 + {lv} % (+{lv2} | 1)"]) + ")"
         if c < 0.12:
             # character-class tests and indexed string literals: operands that begin with '(' and end with ')' and
             # contain bracket characters inside literals
